@@ -19,7 +19,7 @@ CLAIMS = {
  "C11": dict(
   technique="runtime monitor against an exact integer model: real record life-time functions driven under a virtual clock (component), refresh/flush/expiry observed on the simulated wire (world)",
   text="Every TTL 1..600 (thorough ..3000) and large values up to u32::MAX are run through observation sequences (at the marks, +-1 ms around every boundary, skipping marks, with fresh copies) and each answer of the real record (expired, half-life, refresh due, written known-answer TTL) is compared with the model of the statement.",
-  note="TTL<=1 carries no refresh obligation. World-level part: refresh queries on the wire (L2), the cache-flush rule around the one-second boundary for addresses (other interface, other family, same burst) and for TXT/SRV replaced and replaced back (L3), late wake-ups (L1).",
+  note="TTL<=1 carries no refresh obligation. World-level part: refresh queries on the wire (L2), the cache-flush rule around the one-second boundary for A and AAAA records (other interface, other family, same burst) and for TXT/SRV replaced and replaced back (L3), late wake-ups (L1).",
   ref="§6 C11"),
  "C16": dict(
   technique="runtime round-trip monitor: generated property lists through every input type -> ServiceInfo::new -> TXT RDATA (facade) -> independent TXT parser and the crate's public decoder, compared with the given list; end to end through a registering and a browsing daemon on one simulated link",
@@ -38,8 +38,8 @@ CLAIMS = {
   ref="§6 C12"),
  "C13": dict(
   technique="runtime trace monitor: per-channel protocol automaton over delivered events plus a wire rule (no question for a stopped type/host until a new search starts), over generated API histories observed for hours of virtual time",
-  text="Generated histories of browse / browse again / browse_cache / stop / resolve_hostname (timeouts, letter-case variants) / stop_resolve_hostname / dropped receivers / shutdown with packet arrivals, calls clustered +-1 ms around retransmission instants, watched for 20 s or 2-3 virtual hours: T1 first event SearchStarted, T2 Found before Resolved, T3 exactly one final SearchStopped (SearchTimeout first on timeout), T4 no query for the stopped name afterwards, T5 no replay from the cache on re-browse, T6 no query for a cache-only browse.",
-  note="Services of browsed types live on hosts nobody resolves by name. One known finding (cache-only browse refreshes cached records) in known_findings.json.",
+  text="Generated histories of browse / browse again / browse_cache / stop / resolve_hostname (timeouts, letter-case variants) / stop_resolve_hostname / dropped receivers / shutdown with packet arrivals, calls clustered +-1 ms around retransmission instants, watched for 20 s or 2-3 virtual hours: T1 first event SearchStarted, T2 Found before Resolved, T3 exactly one final SearchStopped (SearchTimeout first on timeout), T4 no query for the stopped name afterwards, T5 no replay from the cache on re-browse, T6 no query for a cache-only browse (also no follow-up and no new-interface query). PTR TTLs from 1 s.",
+  note="Services of browsed types live on hosts nobody resolves by name. The cache-only finding (T6) was repaired in /repo and is recorded as fixed in known_findings.json.",
   ref="§6 C13"),
  "C14": dict(
   technique="runtime monitor over enumerated command-queue positions and iteration splits of shutdown (simulated daemon behind the gate) + real-thread stress with resolved-receiver check",
@@ -48,7 +48,7 @@ CLAIMS = {
   ref="§6 C14"),
  "C15": dict(
   technique="runtime crash/liveness monitor: panic hook + daemon-thread exit guard + post-input liveness probes, under hostile API arguments and hostile datagram streams in a simulated world with conflict injection",
-  text="Thousands of cases of 1-3 hostile API calls (names from a hostile grammar incl. labels of 0-256 bytes, multi-byte boundaries, dots/backslashes, existing rename suffixes, totals around 255; extreme numbers), each followed by 6.3 virtual seconds in which every probe is answered with conflicting data, and hundreds of 20-80-datagram streams (random, mutated, grammar-hostile, and valid record chains with hostile labels that the daemon re-encodes in follow-ups and arbitrary / damaged TXT data; conflicting answers also spell the probed name as its escaped text, so that renaming runs for names with dots and backslashes); afterwards status must be Running, a fresh browse must start, and the browse opened before the input must still report a new instance.",
+  text="Thousands of cases of 1-3 hostile API calls (names from a hostile grammar incl. labels of 0-256 bytes, multi-byte boundaries, dots/backslashes, existing rename suffixes, totals around 255; extreme numbers), each followed by 6.3 virtual seconds in which every probe is answered with conflicting data, and hundreds of 20-80-datagram streams (random, mutated, grammar-hostile, and valid record chains with hostile labels that the daemon re-encodes in follow-ups and arbitrary / damaged TXT data; conflicting answers also spell the probed name as its escaped text, so that renaming runs for names with dots and backslashes; competing probe queries carrying our records minus one / plus one / changed / reversed arrive next to them); afterwards status must be Running, a fresh browse must start, and the browse opened before the input must still report a new instance.",
   note="Checked profile (overflow checks and debug assertions on), so overflow-only panics are reported too.",
   ref="§6 C15"),
  "C19": dict(
@@ -58,7 +58,7 @@ CLAIMS = {
   ref="§6 C19"),
  "C03": dict(
   technique="runtime trace monitor against a delivered-record history model: every ServiceResolved event is checked against the lives (reception, TTL, goodbye, cache-flush displacement, verify cuts) of the records actually delivered to the daemon",
-  text="Thousands of browser scenarios (1-3 scripted services, TTLs 1 s..4500 s per record type, shared hosts, several addresses, v4/v6; announce / split announce / cache-flush updates / goodbye / partial goodbye / vanish / verify / foreign records; responders answering never / always / sometimes; loss, duplication and delay; lazy, eager and oversleep stepping; horizon 3 x largest TTL): every field of every ServiceResolved must come from records delivered for that instance and live at that instant (S1-S4).",
+  text="Thousands of browser scenarios (1-3 scripted services, TTLs 1 s..4500 s per record type, shared hosts, several addresses, v4/v6; announce / split announce / cache-flush updates / goodbye / partial goodbye / vanish / verify / foreign records; responders answering never / always / sometimes; loss, duplication and delay; lazy, eager and oversleep stepping; horizon 3 x largest TTL): instance names with capitals and spaces; values updated and updated back right after a re-announcement: every field of every ServiceResolved must come from records delivered for that instance and live at that instant, and of several live SRV or TXT records the one received last is shown (S1-S4, S1-latest, S3-latest).",
   note="Records keep one spelling and one cache-flush setting per identity. Same-instant deliveries are judged leniently (before/during). Trusts the history model (harness/src/model.rs).",
   ref="§6 C03"),
  "C04": dict(
@@ -68,7 +68,7 @@ CLAIMS = {
   ref="§6 C04"),
  "C05": dict(
   technique="runtime trace monitor against the delivered-record history model: departure instants (goodbye + 1 s, PTR expiry, verify timeout) computed from the history, every ServiceRemoved and every departure judged both ways",
-  text="The browser scenarios of C03 with TTLs 1 s..4500 s, verify timeouts {0, 1, 400, 999, 1000, 1001, 1500, 2750 ms, 10 s, 1 h}, refresh queries answered or not, lossy deliveries, horizons 3 x largest TTL: each departure must produce exactly one ServiceRemoved on time (D2-D4) and each ServiceRemoved must be explained by a departure (D5).",
+  text="The browser scenarios of C03 with TTLs 1 s..4500 s, verify timeouts {0, 1, 400, 999, 1000, 1001, 1500, 2750 ms, 10 s, 1 h}, refresh queries answered or not, lossy deliveries, horizons 3 x largest TTL: instance names with capitals: each departure must produce exactly one ServiceRemoved on time (D2-D4) and each ServiceRemoved must be explained by a departure (D5).",
   note="A removal up to one second before a record's expiry is accepted (the crate treats the last second of a record as gone).",
   ref="§6 C05"),
  "C06": dict(
@@ -93,17 +93,17 @@ CLAIMS = {
   ref="§6 C10"),
  "C17": dict(
   technique="runtime trace monitor against the delivered-record history model for address records: every AddressesFound / AddressesRemoved / SearchTimeout / SearchStopped of a hostname search judged both ways",
-  text="Hostname histories: resolve_hostname / stop with the name in any letter case, timeouts {none, 1, 999, 1000, 1500, 7000 ms, 1 h}, a responder announcing 1-2 addresses at a time (v4/v6, owner in any case, TTLs 1-120 s, one of up to two interfaces), goodbyes, silent loss, queries answered or not, foreign records; observed 150 s past the last call; lazy and eager stepping: reported addresses are live and complete (H1), removals on time (H2), A and AAAA asked at once and refreshed (H3), timeouts exact (H4), no question and no event after the search ended (H5).",
+  text="Hostname histories: resolve_hostname / stop with the name in any letter case, timeouts {none, 1, 999, 1000, 1500, 7000 ms, 1 h}, a responder announcing 1-2 addresses at a time (v4/v6, owner in any case, TTLs 1-120 s, one of up to two interfaces; alone or inside the announcement of a service of an unbrowsed type), goodbyes, silent loss, queries answered or not, foreign records; observed 150 s past the last call; lazy and eager stepping: reported addresses are live and complete (H1), removals on time (H2), A and AAAA asked at once and refreshed (H3), timeouts exact (H4), no question and no event after the search ended (H5).",
   note="Each address record keeps one owner spelling and one TTL; late wake-ups are C11's quantifier.",
   ref="§6 C17"),
  "C18": dict(
   technique="runtime monitor: a selection model (call order, last match wins, later interfaces) compared at checkpoints with the daemon's interface table read from hooked state and with the links a fresh query leaves on; per-packet link/subnet rules on the simulated wire; event and cache-snapshot checks after interface loss",
-  text="Part S: 1-4 interfaces (v4/v6/both, two subnets on one interface, loopback) x 1-6 operations among enable/disable with every IfKind (All, IPv4, IPv6, Name, Addr present/absent/later, Loopback, IndexV4/V6, Predicate) and table edits (address added/removed/moved, interface down/up/added/removed), announcements injected on links that are on or off (I3). Part E: up to three selection calls, then explicit and automatic addresses: packets about a service only where it has an address in the link's subnet, carrying only that link's addresses; automatic services follow new addresses (I1, I2). Part P: instances learned over two interfaces, then one disappears or is disabled wholly or by family: ServiceRemoved / re-resolved with what is left, nothing learned there reported again, nothing of it left in the cache (I4, I5).",
+  text="Part S: 1-4 interfaces (v4/v6/both, two subnets on one interface, loopback) x 1-6 operations among enable/disable with every IfKind (All, IPv4, IPv6, Name, Addr present/absent/later, Loopback, IndexV4/V6, Predicate) and table edits (address added/removed/moved, interface down/up/added/removed), announcements injected on links that are on or off (I3). Part E: up to three selection calls, then explicit and automatic addresses: packets about a service only where it has an address in the link's subnet, carrying only that link's addresses; automatic services follow new addresses (I1, I2). Part P: instances (host names in mixed letter case in half of the cases) learned over two interfaces, then one disappears or is disabled wholly or by family: ServiceRemoved / re-resolved with what is left, nothing learned there reported again, nothing of it left in the cache (I4, I5).",
   note="Nothing is judged for one interface-check interval after a table edit (the daemon cannot know yet).",
   ref="§6 C18"),
  "C20": dict(
   technique="runtime monitor of state size: the daemon's own metrics, a hooked full-state snapshot (map keys, records, timers, retransmissions) and paired 1x/4x traffic runs compared",
-  text="Traffic scenarios (40-400 packets: announcements of types nobody browses, SRV/TXT/address records without PTR, NSEC, instances that come and go, PTR-only instances that never resolve, endless re-announcements; TTLs to 120 s; with/without browse, hostname search, own registration, accept_unsolicited): after stopping every search and waiting max TTL + 3 s nothing is cached and at most the interface-check timer is left (G1); at checkpoints the cache holds no more than the open searches relate to (G2); 4x the traffic ends with the same counts (G3).",
+  text="Traffic scenarios (40-400 packets: announcements of types nobody browses, SRV/TXT/address records without PTR, NSEC, instances that come and go, PTR-only instances that never resolve, endless re-announcements; TTLs to 120 s; with/without browse, hostname search (mixed-case names, asked twice, stopped in another spelling), own registration, accept_unsolicited): after stopping every search and waiting max TTL + 3 s nothing is cached and at most the interface-check timer is left (G1); at checkpoints the cache holds no more than the open searches relate to (G2); 4x the traffic ends with the same counts (G3).",
   note="G2 allowance 2 x related + 8; G3 flags growth by more than 2x and more than 6. Four known findings (timer heap, PTR-less records, NSEC) in known_findings.json.",
   ref="§6 C20"),
 }
